@@ -28,7 +28,9 @@ SNIPPETS = [b"1;0;1;0;23;43\n", b"255;255;3;0;3;\r\n", b"1;255;0;0;17;2.2\n", b"
             b"1;255;3;0;6;0\n\n", b"\r", b"\xe2\x82",
             # characters that str.splitlines() / bytes.splitlines() treat as line ends but the protocol does not
             b"1;0;1;0;47;a\x0bb\n", b"1;0;1;0;47;a\x0cb\x1cc\x1dd\x1ee\n", b"1;255;3;0;11;sk\xc2\x85etch\n",
-            b"1;255;3;0;12;1\xe2\x80\xa8.0\r\n", b"1;0;1;0;47;a\rb\n"]
+            b"1;255;3;0;12;1\xe2\x80\xa8.0\r\n", b"1;0;1;0;47;a\rb\n",
+            # a UTF-8 byte order mark in front of a frame (three bytes that a chunk boundary can cut)
+            b"\xef\xbb\xbf1;255;0;0;17;2.0\n"]
 
 
 class _Stub:
